@@ -327,6 +327,43 @@ def clone_case(case):
     return n
 
 
+def many_systems_case(case):
+    """Several thousand systems registered at once (scrambled priorities, some removed and registered again): one
+    timestep runs them in (descending priority, registration order)."""
+    reset_library()
+    n = case['n']
+    m = new_model(seed=1)
+    log = []
+    Rec, _, _ = make_recorder(log)
+    ref = []
+    seq = 0
+    objs = {}
+    for i in range(n):
+        key = f's{(i * 7919) % n}'
+        prio = ((i * 31) % 11) - 5
+        objs[key] = Rec(key, key, m, prio)
+        m.systems.add_system(objs[key])
+        ref.append((prio, seq, key))
+        seq += 1
+    for j in range(0, n, 37):            # every 37th goes and comes back (now the youngest of its priority)
+        key = f's{j}'
+        m.systems.remove_system(key)
+        ref = [r for r in ref if r[2] != key]
+    for j in range(0, n, 74):
+        key = f's{j}'
+        m.systems.add_system(objs[key])
+        ref.append((int(objs[key].priority), seq, key))
+        seq += 1
+    m.execute()
+    exp = [k for _, _, k in sorted(ref, key=lambda r: (-r[0], r[1]))]
+    if log != exp:
+        i = next((i for i, (a, b) in enumerate(zip(log, exp)) if a != b), min(len(log), len(exp)))
+        raise Violation(f'{n} systems registered at once: execution order differs from (descending priority, '
+                        f'registration order) at position {i}', expected=exp[max(0, i - 2):i + 3],
+                        observed=log[max(0, i - 2):i + 3])
+    return len(exp)
+
+
 def long_history(case):
     """One deep history: a transient system is registered and removed n times, then the order of a small set is judged.
     (Exhaustive exploration cannot reach counters that need a million registrations; this single path does.)"""
@@ -375,6 +412,15 @@ def run(ctx):
             return
     ctx.leg('long_history', note='single deep histories of 70 000 and 2^20+16 (thorough: also 2^24+16) register/remove cycles; churn of '
                                  '200 short-lived colliding / new system objects')
+    for n in ((300,) if ctx.small else (3000,) if ctx.tier == 'quick' else (3000, 12000)):
+        case = {'leg': 'many_systems', 'n': n}
+        ctx.traces += 1
+        try:
+            ctx.transitions += hbfs._guard(many_systems_case, case)
+        except Violation as v:
+            ctx.report(case, v)
+            return
+    ctx.leg('many_systems', note='3000 (thorough also 12000) systems registered at once, 11 priority levels')
     nc = 0
     for case in clone_cases():
         ctx.traces += 1
@@ -439,6 +485,9 @@ def replay(case):
         return
     if case['leg'] == 'clone':
         hbfs._guard(clone_case, case)
+        return
+    if case['leg'] == 'many_systems':
+        hbfs._guard(many_systems_case, case)
         return
     h = Harness(case['config']['pool'], case['config'].get('logger_level'), case['config'].get('aliases', False))
     hbfs.replay_case(h, case)
